@@ -64,7 +64,7 @@ int disasm_86000(
           return 2;
         case OP_AT_REG:
           reg = opcode & 0x3;
-          snprintf(instruction, length, "%s #0x%02x", table_86000[n].name, reg);
+          snprintf(instruction, length, "%s @r%d", table_86000[n].name, reg);
           return 1;
         case OP_ADDRESS_RELATIVE8:
           value = memory->read8(address + 1);
